@@ -4,6 +4,7 @@ import (
 	"encoding/json"
 	"flag"
 	"fmt"
+	"golang.org/x/tools/go/ssa"
 	"os"
 	"path/filepath"
 	"regexp"
@@ -128,6 +129,7 @@ func cmdCheck(args []string) int {
 		expectSat                      bool
 		query                          string
 		at                             int
+		blk                            int
 	}
 	var all []oblRes
 	var fevs []funcEvidence
@@ -201,7 +203,7 @@ func cmdCheck(args []string) int {
 					if !ok {
 						q = r.VC.queryText(o, false)
 					}
-					all = append(all, oblRes{o.Name, baseName(o.Name), r.Key, o.Kind, o.Src, o.Pos, ok, o.Status, o.Solver, o.Output, o.Model, o.TimeS, o.ExpectSat, q, o.At})
+					all = append(all, oblRes{o.Name, baseName(o.Name), r.Key, o.Kind, o.Src, o.Pos, ok, o.Status, o.Solver, o.Output, o.Model, o.TimeS, o.ExpectSat, q, o.At, o.Blk})
 					if len(samples) < 6 && (o.Kind == "post" || o.Kind == "inv") && ok {
 						samples = append(samples, map[string]string{"obligation": o.Name, "clause": o.Src, "status": o.Status, "backend": o.Solver,
 							"smt_goal_head": trunc("(assert "+o.Guard+") (assert (not "+o.Goal+"))", 400)})
@@ -243,19 +245,87 @@ func cmdCheck(args []string) int {
 	if *claimMode {
 		good := map[string]bool{}
 		bad := map[string]bool{}
-		// an assertion (lemma hint) that is not discharged taints everything proved after it in the
-		// same function, because it is assumed from that point on
-		taintAt := map[string]int{}
-		for _, o := range all {
-			if !o.ok && o.kind == "assert" {
-				if t, ok := taintAt[o.fn]; !ok || o.at < t {
-					taintAt[o.fn] = o.at
+		// Taint: an assertion (lemma hint) or a callee precondition that is not discharged is
+		// nevertheless assumed from that point on; a loop invariant that is not discharged is assumed
+		// at the loop head. Whatever is proved on a path through such a point is not claimed.
+		// "On a path through" = same basic block and later, or a block reachable from it in the
+		// control-flow graph without back edges (loops are cut at their heads).
+		reachFrom := func(fnKey string, from int) map[int]bool {
+			out := map[int]bool{}
+			fn := eng.Func(fnKey)
+			if fn == nil || from < 0 || from >= len(fn.Blocks) {
+				return nil // unknown: taint everything
+			}
+			stack := []*ssa.BasicBlock{fn.Blocks[from]}
+			for len(stack) > 0 {
+				b := stack[len(stack)-1]
+				stack = stack[:len(stack)-1]
+				for _, sc := range b.Succs {
+					if isBackEdge(b, sc) || out[sc.Index] {
+						continue
+					}
+					out[sc.Index] = true
+					stack = append(stack, sc)
 				}
+			}
+			return out
+		}
+		type taintPt struct {
+			blk, at int
+			whole   bool   // the whole block is tainted (loop head), not only what follows "at"
+			except  string // obligations whose name contains this are exempt (the loop's own :entry checks)
+			reach   map[int]bool
+			all     bool
+		}
+		taints := map[string][]taintPt{}
+		loopRe := regexp.MustCompile(`#inv:(loop\d+):`)
+		headOf := map[string]int{}
+		for _, o := range all {
+			if m := loopRe.FindStringSubmatch(o.name); m != nil && strings.Contains(o.name, ":entry") {
+				headOf[o.fn+"#"+m[1]] = o.blk
 			}
 		}
 		for _, o := range all {
-			t, tainted := taintAt[o.fn]
-			if o.ok && !(tainted && o.at > t) {
+			if o.ok {
+				continue
+			}
+			switch {
+			case o.kind == "assert" || o.kind == "pre":
+				r := reachFrom(o.fn, o.blk)
+				taints[o.fn] = append(taints[o.fn], taintPt{blk: o.blk, at: o.at, reach: r, all: r == nil})
+			case o.kind == "inv":
+				if m := loopRe.FindStringSubmatch(o.name); m != nil {
+					h, ok := headOf[o.fn+"#"+m[1]]
+					if !ok {
+						taints[o.fn] = append(taints[o.fn], taintPt{all: true})
+						continue
+					}
+					r := reachFrom(o.fn, h)
+					taints[o.fn] = append(taints[o.fn], taintPt{blk: h, whole: true, except: "#inv:" + m[1] + ":", reach: r, all: r == nil})
+				}
+			}
+		}
+		isTainted := func(o oblRes) bool {
+			for _, t := range taints[o.fn] {
+				switch {
+				case t.all:
+					return true
+				case o.blk == t.blk:
+					if t.whole {
+						if !(strings.Contains(o.name, t.except) && strings.Contains(o.name, ":entry")) {
+							return true
+						}
+					} else if o.at > t.at {
+						return true
+					}
+				case t.reach[o.blk]:
+					return true
+				}
+			}
+			return false
+		}
+		for _, o := range all {
+			if o.ok && !isTainted(o) {
 				good[o.base] = true
 			} else {
 				bad[o.base] = true
@@ -350,12 +420,19 @@ func cmdCheck(args []string) int {
 			report(o, "claimed obligation no longer discharges")
 		case o.status == "sat" && !o.expectSat:
 			report(o, "new obligation refuted by the solver")
+		case strings.Contains(o.name, "#frame:global:") && claimedFunc(claimed, o.fn):
+			// the goal of this obligation is "false": it can only be discharged when the write is
+			// unreachable, so an undischarged one means the function now writes a package-level variable
+			report(o, "a function under contract writes a package-level variable")
 		case o.expectSat && claimedFunc(claimed, o.fn):
 			report(o, "vacuity guard failed (contract or path became contradictory)")
 		default:
 			unproved = append(unproved, o.name+" ["+o.status+"]")
 			if o.kind == "post" {
 				assumed["postcondition written but NOT discharged; callers under contract assume it: "+o.name] = true
+			}
+			if o.kind == "pre" {
+				assumed["callee precondition NOT established at this call (nothing proved after it in the same function is claimed): "+o.name] = true
 			}
 		}
 	}
